@@ -479,5 +479,7 @@ def run(ctx):
     C02.r7(ctx)   # R4: RST only for unread data
     C02.r4(ctx)   # the crashed sender's FIN fits the peer's receive queue
     C12.r4(ctx)   # a half-open connect is released when the crash drops its future
+    C12.r8(ctx)   # requests abandoned by a crashed connector do not count against the backlog (a panic in step takes every host down)
+    C12.r9(ctx)   # ... and do not strand a live request behind them: accept parks only on an empty queue
     from . import C01
     C01.r8(ctx)   # a scoped context (the entered Fs) is put back exactly as it was found: a guard that leaves the slot set hands the next host's destructors somebody else's filesystem
